@@ -210,4 +210,4 @@ Example C20_stream_example_manager :
 Proof. vm_compute. repeat split; reflexivity. Qed.
 Example C20_stream_example_running :
   running (mrun [] [] [] [Submit 0; Submit 1]) 1 /\ retryable XNotFound = false /\ retryable XUnknown = true.
-Proof. split; [eexists; split; reflexivity|split; reflexivity]. Qed.
+Proof. split; [unfold running; vm_compute; eexists; split; reflexivity|split; vm_compute; reflexivity]. Qed.
